@@ -4,7 +4,18 @@ from props_common import TRUSTED_COMMON
 PROP = {
     "lean_targets": ["MultiProofs.C09"],
     "lean_module": "MultiProofs.C09",
-    "theorems": ["Multi.C09.stub"],
+    "theorems": [
+        "Multi.C09.fault_step",
+        "Multi.C09.fault_safe_partial",
+        "Multi.C09.fault_safe_fixed",
+        "Multi.C09.no_alloc_when_not_needed",
+        "Multi.C09.finding_F6_ctor_leaks_block",
+        "Multi.C09.finding_F7_copy_assign_dangling",
+        "Multi.C09.finding_F7_double_free",
+        "Multi.C09.finding_F8_reextent_leaks_tmp",
+        "Multi.C09.finding_T1_static_move_terminates",
+        "Multi.Ledger.run_spec",
+    ],
     "harnesses": [lc.ledger_harness("ledger", ["faults"], 48000, 480000, ["faults20"])],
     "hooks": ["oracle"],
     "trusted_base": TRUSTED_COMMON + lc.TRUSTED_LEDGER,
